@@ -76,7 +76,9 @@ def run(ctx):
                 if name.endswith("Rotator"):
                     rc_ = m.get_params()["compute"] if rot_compute is None else rot_compute
                     # a deferred rotation cannot test convergence: it runs exactly max_iter iterations
-                    r = Z.rotator_for(base)(n_modes=2, compute=rc_, max_iter=(200 if rc_ else 4), rtol=1e-6)
+                    # oblique (power 2: the inverse of the rotation matrix is needed) and orthogonal rotations alternate
+                    power = 2 if (name == "EOFRotator") == (rep % 2 == 0) else 1
+                    r = Z.rotator_for(base)(n_modes=2, power=power, compute=rc_, max_iter=(200 if rc_ else 4), rtol=1e-6)
                     r.fit(m)
                     return r
                 return m
